@@ -107,6 +107,11 @@ def make_stream(rng):
     if kind == "ulaw":
         ftype = M.TYPE_AU2
         chans = [np.clip(np.cumsum(rng.integers(-6, 7, N)), -128, 127).tolist() for _ in range(nchan)]
+        if rng.random() < 0.4:
+            a = int(rng.integers(0, N))  # a stretch of digital silence (internal value 0): whole blocks of it are sent as ZERO
+            for ch in chans:
+                for k in range(a, min(N, a + 100)):
+                    ch[k] = 0
         expect = np.array([[ulaw_expected(v) for v in ch] for ch in chans], dtype=np.int16).T
         hdr = SW.header(nchan, N, "ulaw,embedded-shorten-v2.00", 1, "1")
     else:
@@ -181,6 +186,10 @@ def run_case(case, rec, mon=None):
             rec.count("version_%d" % info["version"])
             rec.count("nmean_%d" % info["nmean"])
             rec.count("type_" + info["kind"])
+            if stats.get("long_unary_runs"):
+                rec.count("streams_with_unary_runs_over_a_whole_word")
+            if info["kind"] == "ulaw" and stats["cmds"].get(M.FN_ZERO):
+                rec.count("ulaw_streams_with_zero_blocks")
             if stats.get("midframe_bitshift"):
                 rec.count("streams_with_bitshift_between_channel_blocks")
             if len(stats["blocksizes"]) > 1:
